@@ -9,7 +9,9 @@ PROP = "C13"
 RUNNER = ("RunC13", "run_C13")
 COQ_TARGETS = ["theories/RunC13.vo"]
 AUTHORITY = ("C13_* (coq/props/C13.v): for every integer point of the box the inequality holds iff some integer slack inside the "
-             "introduced bounds satisfies the new equality; always / never cases; rejections leave the instance unchanged")
+             "introduced bounds satisfies the new equality; always / never cases; rejections leave the instance unchanged; "
+             "C13_convert_instance / C13_add_instance: the same equivalence through Instance::evaluate (same objective, state extended "
+             "by the slack, other records identical, feasibility flags equivalent)")
 RULE = ("an inequality f <= 0 of degree <= 2 over <= 3 integer / binary variables with small integer boxes, coefficients in three "
         "streams: integers, quarters (both exact in f64), rationals p/q with q <= 60 (the SDK gets the nearest f64, the model the "
         "intended fraction; functions then compared coefficient-wise within 2^-40, slack bounds exactly); among other constraints "
